@@ -19,6 +19,12 @@
     implementation caches the resolved function object in place afterwards (`cacheAll`).
     `evalCode` evaluates code against a `Store` of cells; `runC` is the top-level loop.
 
+  Definitions carry a lambda list (`Sig`: required, `&optional`, `&key` with constant defaults) and
+  `&aux` variables whose init *forms* are code evaluated on every call (`evalAux`); the mechanism keeps
+  them as list forms converted on every call (`embedAux`). `undef f` is `fmakunbound`: the name is
+  removed from the table; in the mechanism the name keeps its cell and the cell becomes the placeholder
+  again, so callers compiled before, between and after a later `defun` all reach the new definition.
+
   The theorems (Theorems/C08.lean) show that the mechanism refines the specification for every
   history, and that the specification is independent of definition order.
 
